@@ -113,13 +113,19 @@ Definition phy_encrypt_frm (key : list N) (p : phy) : outcome phy :=
   | _ => Err
   end.
 
-(* after the repair (C07-7): an empty FRMPayload (FPort 0 without mac-commands) is left as it is *)
+(* after the repairs C07-7 (an empty FRMPayload - FPort 0 without mac-commands - is left as it is) and C03-2 (a
+   non-empty FRMPayload is only decoded when FPort = 0: on any other port it holds application octets, and turning
+   them into MACCommand values would leave a frame that cannot be encoded any more) *)
 Definition phy_decode_frm (reg : registry) (p : phy) : outcome phy :=
   match pl p with
   | PLMac m =>
     match frm m with
     | [] => Ok p
-    | _ => do f <- decode_payloads reg (is_uplink (mtype p)) (frm m); Ok (with_frm p m f)
+    | _ =>
+      match fport m with
+      | Some 0 => do f <- decode_payloads reg (is_uplink (mtype p)) (frm m); Ok (with_frm p m f)
+      | _ => Err
+      end
     end
   | _ => Err
   end.
